@@ -30,6 +30,10 @@ impl FastRng {
   /// The denominator MUST be a power of two.
   #[inline(always)]
   pub fn should_run(&self, denominator_pow2: u32) -> bool {
+    #[cfg(excsn_fibre_verif)]
+    if let Some(answer) = crate::verif::maintenance_coin() {
+      return answer;
+    }
     let mask = (denominator_pow2 - 1) as u64;
     (self.next_weyl() & mask) == 0
   }
